@@ -6,6 +6,7 @@ NAME = "lits"
 MODULE = "cspuz.puzzle.lits"
 FUNC = "solve_lits"
 TIER1 = ("Lits", "solve_lits_model")
+TIER1_PRIM = ("LitsPrim", "solve_lits_model_prim")
 
 
 def call(mod, pb):
